@@ -82,9 +82,10 @@ func execG64Iter(st *State, args []string) string {
 
 func execG64Enc(st *State, args []string) string {
 	v := tree.Gindex64(g64Arg(args[0]))
-	le := v.LittleEndian()
-	be := v.BigEndian()
+	le := retainNote(v.LittleEndian())
+	be := retainNote(v.BigEndian())
 	la, bitLen := v.LeftAlignedBigEndian()
+	retainNote(la)
 	return fmt.Sprintf("ok %s %s %s %d", g64BytesTok(le), g64BytesTok(be), g64BytesTok(la), bitLen)
 }
 
